@@ -29,7 +29,8 @@ RULE = ("small valid DEX/AXML/ARSC/APK artefacts x {8 byte values at every offse
         "mutant parsed under an event budget polynomial in the input size; distinct by construction (artefact, fault); "
         "non-trivial = the mutant got past the header check (parsing proper was exercised)")
 ASSUMPTIONS = ["termination is judged by a deterministic interpreter-event budget B(n)=3e5+300 n+2 n^2, not by wall clock",
-               "C-level work (bytes * n, zlib) is not counted by the budget; a 120 s wall-clock watchdog per shard only reports 'inconclusive'",
+               "work inside one C call produces no events; it is bounded separately by user-CPU time of the process (10 s + budget/2e5 s, ITIMER_VIRTUAL, "
+               "independent of machine load), which only a C-level runaway such as a backtracking regular expression can reach",
                "single faults on small artefacts: not all byte strings"]
 MANIFEST = {
     "engine": "E4-faults",
@@ -60,7 +61,12 @@ def _axml_docs():
                                                       "attrs": [{"ns": "urn:x", "name": "k", "t": 3, "d": 0, "s": "vé"}],
                                                       "kids": [{"ns": None, "name": "b1", "decl": [], "attrs": [], "kids": []}, {"text": "t"}]}}
     tiny = {"utf8": True, "resmap": False, "root": {"ns": None, "name": "a", "decl": [], "attrs": [], "kids": []}}
-    return {"axml:manifest": A.serialize(A.build(manifest)), "axml:utf16": A.serialize(A.build(utf16)), "axml:tiny": A.serialize(A.build(tiny))}
+    # element / attribute names much longer than any in a real manifest (80 and 72 valid name characters): a one-byte fault
+    # turns one of them into 'long valid run + one invalid character', the input on which a name-validation pattern with
+    # nested quantifiers backtracks exponentially (work inside a single C call: caught by the CPU-time bound)
+    longn = {"utf8": True, "resmap": False, "root": {"ns": None, "name": "abcdefgh-j" * 8, "decl": [["p", "urn:x"]],
+                                                     "attrs": [{"ns": "urn:x", "name": "k_lmnop.r" * 8, "t": 3, "d": 0, "s": "v"}], "kids": []}}
+    return {"axml:long-names": A.serialize(A.build(longn)),"axml:manifest": A.serialize(A.build(manifest)), "axml:utf16": A.serialize(A.build(utf16)), "axml:tiny": A.serialize(A.build(tiny))}
 
 
 def _arsc_tables():
@@ -177,6 +183,12 @@ DRIVERS = {"dex": parse_dex, "axml": parse_axml, "arsc": parse_arsc, "apk": pars
 
 def budget(n):
     return 300000 + 300 * n + 2 * n * n
+
+
+def cpu_bound(B):
+    """user-CPU seconds: 10 s plus the time B events can take at a pessimistic 2e5 events/s, i.e. never reached by work the
+    event budget sees; only a runaway inside one C call (regular expression) gets here"""
+    return 10 + B / 2e5
 
 
 def repair_dex(b):
@@ -296,16 +308,18 @@ def judge(name, base, f):
     B = budget(len(buf))
     import contextlib
     with contextlib.redirect_stdout(io.StringIO()):     # the ARSC parser print()s diagnostics
-        status, val, ev = run_with_budget(lambda: DRIVERS[kind](buf), B)
+        status, val, ev = run_with_budget(lambda: DRIVERS[kind](buf), B, cpu_bound(B))
         if status == "budget":
             # one-time lazy initialisation inside the library (e.g. the system resource-id table that is loaded the first
             # time an attribute id has to be looked up, a regex cache, a lazily imported module) is charged to whichever
             # parse happens to trigger it first in this process; it is not work 'bounded by the input'.  A parse that
             # really does not terminate exceeds the budget again on the immediate second attempt; only that is reported.
-            status, val, ev = run_with_budget(lambda: DRIVERS[kind](buf), B)
+            status, val, ev = run_with_budget(lambda: DRIVERS[kind](buf), B, cpu_bound(B))
     if status == "budget":
-        return status, ev, "%s:%s:%s" % (kind, f[0] if f[0] in ("trunc", "cut-last-byte-keep-size") else "overwrite", region_of(name, base, f)), \
-            "%s fault %r: parser did not finish within %d events (input %d bytes)" % (name, list(f), B, len(buf))
+        how = "%.0f s of CPU inside C calls (only %d events)" % (cpu_bound(B), ev) if val == "cpu" else "%d events" % B
+        return status, ev, "%s:%s:%s%s" % (kind, f[0] if f[0] in ("trunc", "cut-last-byte-keep-size") else "overwrite", region_of(name, base, f),
+                                           ":c-level" if val == "cpu" else ""), \
+            "%s fault %r: parser did not finish within %s (input %d bytes)" % (name, list(f), how, len(buf))
     return status, ev, None, None
 
 
@@ -320,7 +334,7 @@ def shards(ctx):
 def space(ctx):
     arts = artefacts(ctx)
     return {"artefacts": {k: len(v) for k, v in sorted(arts.items())}, "substitution_alphabet": "00 01 7f 80 fe ff b^01 b^80" + (" (all 255 for <=400 B)" if ctx.thorough else ""),
-            "word_overwrites": {"32bit": ["0", "1", "7fffffff", "ffffffff"], "16bit": ["0", "ffff"], "64bit": ["%x" % v for v in W64]}, "budget": "3e5 + 300*n + 2*n^2 events",
+            "word_overwrites": {"32bit": ["0", "1", "7fffffff", "ffffffff"], "16bit": ["0", "ffff"], "64bit": ["%x" % v for v in W64]}, "budget": "3e5 + 300*n + 2*n^2 events", "cpu_bound_for_c_level_work": "10 s + budget/2e5 s of user CPU time (ITIMER_VIRTUAL)",
             "runaway_cap_per_shard": RUNAWAY_CAP}
 
 
